@@ -116,12 +116,6 @@ namespace {
         return "?";
     }
 
-    // which of the two algorithm fields a connection data type has
-    template < class C > std::string legacy_alg( const C& c, decltype( std::declval< const C& >().legacy_pairing_algorithm() )* = nullptr ) { return legacy_name( c.legacy_pairing_algorithm() ); }
-    std::string legacy_alg( ... ) { return "none"; }
-    template < class C > std::string lesc_alg( const C& c, decltype( std::declval< const C& >().lesc_pairing_algorithm() )* = nullptr ) { return lesc_name( c.lesc_pairing_algorithm() ); }
-    std::string lesc_alg( ... ) { return "none"; }
-
     template < class Manager, class In, class Out, class Mitm >
     struct sm_subject : verif::subject,
         Manager::template impl< sm_subject< Manager, In, Out, Mitm >, In, Out, Mitm, oob_cb >,
@@ -154,39 +148,79 @@ namespace {
             this->handle_pairing_request( in, in_size, out, out_size, con );
         }
 
+        // result of one cell, kept as numbers so that a sweep compares and prints only at run boundaries
+        struct raw_cell {
+            char kind;                  // 'F' failed, 'L' legacy, 'S' LESC, 'X' anything else
+            int  alg;                   // enumerator of the stored pairing algorithm / Pairing Failed reason / state
+            std::uint8_t rsp[ 3 ];      // Pairing Response bytes 1..3
+            std::string  junk;          // 'X' only
+            bool operator==( const raw_cell& o ) const
+            {
+                return kind == o.kind && alg == o.alg && std::equal( rsp, rsp + 3, o.rsp ) && junk == o.junk;
+            }
+        };
+
+        // exactly sized heap blocks (AddressSanitizer sees any over-read / over-write), reused between cells
+        verif::heap_bytes in_{ std::vector< std::uint8_t >{ 0x01, 0, 0, 0, 0x10, 0x00, 0x00 } };
+        verif::heap_bytes out_{ manager_t::maximum_channel_mtu_size };
+
+        static int legacy_value( ... ) { return -1; }
+        template < class C > static int legacy_value( const C& c, decltype( std::declval< const C& >().legacy_pairing_algorithm() )* = nullptr ) { return static_cast< int >( c.legacy_pairing_algorithm() ); }
+        static int lesc_value( ... ) { return -1; }
+        template < class C > static int lesc_value( const C& c, decltype( std::declval< const C& >().lesc_pairing_algorithm() )* = nullptr ) { return static_cast< int >( c.lesc_pairing_algorithm() ); }
+
         // one Pairing Request on a fresh connection
-        std::string cell( unsigned io, unsigned oob, unsigned auth, bool loc )
+        raw_cell cell( unsigned io, unsigned oob, unsigned auth, bool loc )
         {
             oob_user.present = loc;
 
             connection_t con;
             con.remote_connection_created( bluetoe::link_layer::random_device_address( { 0xa6, 0xa5, 0xa4, 0xa3, 0xa2, 0xa1 } ) );
 
-            verif::heap_bytes in( std::vector< std::uint8_t >{ 0x01, std::uint8_t( io ), std::uint8_t( oob ), std::uint8_t( auth ), 0x10, 0x00, 0x00 } );
-            const std::size_t mtu = manager_t::maximum_channel_mtu_size;
-            verif::heap_bytes out( mtu );
-            std::size_t out_size = mtu;
+            in_.p[ 1 ] = std::uint8_t( io ); in_.p[ 2 ] = std::uint8_t( oob ); in_.p[ 3 ] = std::uint8_t( auth );
+            std::memset( out_.p, 0xAA, out_.size );
+            std::size_t out_size = out_.size;
 
-            request( in.p, in.size, out.p, out_size, con, entry_t() );
+            request( in_.p, in_.size, out_.p, out_size, con, entry_t() );
 
-            if ( out_size == 2 && out.p[ 0 ] == 0x05 )
-                return "F." + verif::hex_of_bytes( out.p + 1, 1 );
+            raw_cell r = { 'X', 0, { 0, 0, 0 }, std::string() };
 
-            if ( out_size != 7 || out.p[ 0 ] != 0x02 )
-                return "X." + verif::hex_of_bytes( out.p, out_size );
-
-            const std::string rsp = verif::hex_of_bytes( out.p + 1, 3 );
-
-            switch ( con.state() )
+            if ( out_size == 2 && out_.p[ 0 ] == 0x05 )
             {
-                case bluetoe::details::sm_pairing_state::legacy_pairing_requested:
-                    return "L." + legacy_alg( con ) + "." + rsp;
-                case bluetoe::details::sm_pairing_state::lesc_pairing_requested:
-                    return "S." + lesc_alg( con ) + "." + rsp;
-                default:
-                    break;
+                r.kind = 'F'; r.alg = out_.p[ 1 ];
             }
-            return "X.state" + std::to_string( static_cast< int >( con.state() ) );
+            else if ( out_size != 7 || out_.p[ 0 ] != 0x02 )
+            {
+                r.junk = verif::hex_of_bytes( out_.p, out_size <= out_.size ? out_size : out_.size );
+            }
+            else
+            {
+                std::copy( out_.p + 1, out_.p + 4, r.rsp );
+
+                switch ( con.state() )
+                {
+                    case bluetoe::details::sm_pairing_state::legacy_pairing_requested:
+                        r.kind = 'L'; r.alg = legacy_value( con );
+                        break;
+                    case bluetoe::details::sm_pairing_state::lesc_pairing_requested:
+                        r.kind = 'S'; r.alg = lesc_value( con );
+                        break;
+                    default:
+                        r.junk = "state" + std::to_string( static_cast< int >( con.state() ) );
+                }
+            }
+            return r;
+        }
+
+        static std::string show( const raw_cell& r )
+        {
+            switch ( r.kind )
+            {
+                case 'F': { const std::uint8_t c = std::uint8_t( r.alg ); return "F." + verif::hex_of_bytes( &c, 1 ); }
+                case 'L': return std::string( "L." ) + ( r.alg < 0 ? "none" : legacy_name( static_cast< bluetoe::details::legacy_pairing_algorithm >( r.alg ) ) ) + "." + verif::hex_of_bytes( r.rsp, 3 );
+                case 'S': return std::string( "S." ) + ( r.alg < 0 ? "none" : lesc_name( static_cast< bluetoe::details::lesc_pairing_algorithm >( r.alg ) ) ) + "." + verif::hex_of_bytes( r.rsp, 3 );
+            }
+            return "X." + r.junk;
         }
 
         static void range( const std::string& w, unsigned first_hi, unsigned& lo, unsigned& hi )
@@ -198,7 +232,7 @@ namespace {
         std::string op( const std::vector< std::string >& w ) override
         {
             if ( w[ 0 ] == "req" && w.size() == 5 )
-                return cell( std::stoul( w[ 1 ], nullptr, 16 ), std::stoul( w[ 2 ], nullptr, 16 ), std::stoul( w[ 3 ], nullptr, 16 ), w[ 4 ] == "1" );
+                return show( cell( std::stoul( w[ 1 ], nullptr, 16 ), std::stoul( w[ 2 ], nullptr, 16 ), std::stoul( w[ 3 ], nullptr, 16 ), w[ 4 ] == "1" ) );
 
             if ( w[ 0 ] == "sweep" && w.size() == 6 )
             {
@@ -208,9 +242,10 @@ namespace {
                 const bool     loc  = w[ 3 ] == "1";
                 const unsigned bits = ( w[ 4 ] == "1" ? 0x04u : 0u ) | ( w[ 5 ] == "1" ? 0x08u : 0u );
 
-                std::string result, last;
+                std::string result;
+                raw_cell last;
                 unsigned long count = 0;
-                auto flush = [&]() { if ( count ) { if ( !result.empty() ) result += ' '; result += std::to_string( count ) + "*" + last; } };
+                auto flush = [&]() { if ( count ) { if ( !result.empty() ) result += ' '; result += std::to_string( count ) + "*" + show( last ); } };
 
                 for ( unsigned io = io_lo; io <= io_hi; ++io )
                     for ( unsigned oob = oob_lo; oob <= oob_hi; ++oob )
@@ -219,7 +254,7 @@ namespace {
                             if ( ( auth & 0x0cu ) != bits )
                                 continue;
 
-                            const std::string c = cell( io, oob, auth, loc );
+                            const raw_cell c = cell( io, oob, auth, loc );
                             if ( count && c == last ) { ++count; }
                             else { flush(); last = c; count = 1; }
                         }
